@@ -109,6 +109,12 @@ PROPS["C10"] = {
                    "c10::c10_foreign_functions_used", "c16::c16_carc_view_overaligned_opaque_clone", "c10::c10_negative_twin"],
          "thorough_adds": ["c10::c10_pool_k4"],
          "timeout": 3000},
+        # the same code as the RELEASE profile compiles it: with debug assertions off, whatever sits inside debug_assert!
+        # (or behind cfg(debug_assertions)) is not executed - an ownership transfer hidden there exists in the dev profile only
+        {"id": "arc_no_debug_assertions",
+         "quick": ["c10::c10_pool_k2", "c10::c10_from_value_last_handle_drops", "c10::c10_last_handle_with_weak_observer",
+                   "c10::c10_foreign_functions_used"],
+         "rustflags": "-C debug-assertions=off", "timeout": 1500},
     ],
     "negative": ["c10::c10_negative_twin"],
     "bounds": "every history of k = 2 and 3 (thorough 4) operations, each chosen symbolically from 12 operation kinds {clone, clone_from, repeated into_opaque, "
